@@ -86,7 +86,7 @@ ApplyParse(m, e, obj, step) ==
   LET f1 == ExcClass(TRUE, e, "parse.exc", step)
       phi0 == Desugar(IF IsWritten(obj) THEN NormAst(obj.written, DenseU(obj)) ELSE obj.phi)
       impl == IF IsWritten(obj) /\ obj.implAst.op # "none" THEN NormAst(obj.implAst, DenseU(obj)) ELSE obj.implAst
-      f2 == IF f1 = Ok /\ impl # phi0 THEN F("parse.ast", step, phi0, impl) ELSE Ok IN
+      f2 == IF f1 = Ok /\ obj.implKnown /\ impl # phi0 THEN F("parse.ast", step, phi0, impl) ELSE Ok IN
   R([m EXCEPT !.phase = "parsed", !.phi = phi0, !.inst = phi0], f1 \o f2, 0)
 
 ApplyPastify(m, e, step) ==
